@@ -1,5 +1,5 @@
 (* Single entry point of the executable model: [dispatch (SL [SI code; payload])]. *)
-From MD Require Import Base.Py Base.Sx Run.RunRuler Run.RunInstance Run.RunWorld Run.RunStream.
+From MD Require Import Base.Py Base.Sx Run.RunRuler Run.RunInstance Run.RunWorld Run.RunStream Run.RunBlock.
 
 Definition dispatch (s : sx) : sx :=
   let payload := sx_nth s 1%nat in
@@ -17,5 +17,7 @@ Definition dispatch (s : sx) : sx :=
   | 25 => run_replacements payload
   | 26 => run_smartquotes payload
   | 27 => run_strfn payload
+  | 30 => run_block payload
+  | 31 => run_tables payload
   | _ => SL [SI (-1)]
   end.
